@@ -361,7 +361,7 @@ pub fn run(cx: &mut Cx) {
             continue;
         }
         let mut rng = run.cx.rng(case);
-        let fam = ["corpus-mutation", "corpus-mutation", "token-soup", "delimiters", "names", "numbers", "corpus-mutation-delims"][(case % 7) as usize];
+        let fam = ["corpus-mutation", "corpus-mutation", "token-soup", "delimiters", "names", "numbers", "corpus-mutation-delims", "end-tags"][(case % 8) as usize];
         let ninputs = 40;
         let mut inputs: Vec<(String, String, Option<Delimiters>)> = Vec::new();
         match fam {
@@ -398,6 +398,34 @@ pub fn run(cx: &mut Cx) {
                         };
                         inputs.push(("t".into(), src, Some(d.clone())));
                     }
+                }
+            }
+            "end-tags" => {
+                // opening and closing names of every named construct in every relation to each other: equal, a prefix,
+                // an extension with more dotted parts, different, empty, stray dots
+                let opens = ["card", "ui.card", "a.b.c", "x", "ui.forms.widget"];
+                for _ in 0..ninputs {
+                    let o = *rng.pick(&opens);
+                    let c = match rng.below(10) {
+                        0 => o.to_string(),
+                        1 => format!("{o}.header"),
+                        2 => format!("{o}.a.b.c.d"),
+                        3 => o.split('.').next().unwrap_or("").to_string(),
+                        4 => String::new(),
+                        5 => format!("{o}."),
+                        6 => format!(".{o}"),
+                        7 => o.replace('.', ".."),
+                        8 => "other".to_string(),
+                        _ => format!("{}.{}", o, "z.".repeat(rng.below(40))),
+                    };
+                    let src = match rng.below(5) {
+                        0 => format!("{{% <{o}> %}}x{{% </{c}> %}}"),
+                        1 => format!("{{% component {o}() %}}x{{% endcomponent {c} %}}{{% <{o}> %}}y{{% </{c}> %}}"),
+                        2 => format!("{{% block {} %}}x{{% endblock {c} %}}", o.replace('.', "_")),
+                        3 => format!("{{% <{o} a=\"1\"> %}}{{% <{c}> %}}x{{% </{c}> %}}{{% </{o}> %}}"),
+                        _ => format!("{{% <{o}> %}}{{% if true %}}x{{% </{c}> %}}{{% endif %}}"),
+                    };
+                    inputs.push(("t".into(), src, None));
                 }
             }
             "names" => {
